@@ -1,5 +1,23 @@
-import XsVerif.Driver.Util
-open Lean XsVerif.Driver
+import XsVerif.Driver.CMJson
+import XsVerif.Model.Visitor
+open Lean XsVerif.Driver XsVerif.Wildcard XsVerif.CM
 
--- stub: replaced when the model of C01 lands
-def main : IO Unit := XsVerif.Driver.run fun _ => .error "C01 driver not implemented"
+namespace XsVerif.Driver.C01
+
+/-- request: {"n": ids, "model": particle, "words": [[[ns,loc],…],…]}
+    answer:  {"r": [{"o": oracle, "m": visitor verdict, "e": [[index, particle, occurs],…], "f": fuelOut},…]} -/
+def handle (j : Json) : Except String Json := do
+  let n ← getNat j "n"
+  let (p, nodes) ← parseParticle (← j.getObjVal? "model")
+  let A := mkArena n nodes
+  let words ← (← getArr j "words").toList.mapM fun w => do (← w.getArr?).toList.mapM parseQN
+  let res := words.map fun w =>
+    let v := childErrors A n p.pid w
+    Json.mkObj [("o", inModel p w), ("m", v.errors.isEmpty),
+      ("e", Json.arr (v.errors.map fun e => Json.arr #[e.index, e.particle, e.occurs]).toArray),
+      ("f", v.fuelOut)]
+  return Json.mkObj [("r", Json.arr res.toArray)]
+
+end XsVerif.Driver.C01
+
+def main : IO Unit := XsVerif.Driver.run XsVerif.Driver.C01.handle
